@@ -602,7 +602,7 @@ impl OutputFormat for IcyDraw {
                                         result.layers.push(layer);
                                     } else {
                                         if bytes.len() - o < length {
-                                            return Err(anyhow::anyhow!("data length out ouf bounds {} data lenth: {}", o + length, bytes.len()));
+                                            return Err(anyhow::anyhow!("data length out ouf bounds {} data lenth: {}", length, bytes.len() - o));
                                         }
                                         for y in 0..height {
                                             if o >= bytes.len() {
